@@ -45,6 +45,11 @@ var edge = []File{
 	{"edge/odd-import-paths", "package p\n\nimport (\n\t\"net/\"\n\t\"/\"\n\t\"a//b\"\n\t\"./x\"\n\t\"a/v2\"\n\t\"a.b/c.v3\"\n\tq \"\"\n)\n\nvar _ = net.A + b.B + x.C + v2.D + c.E + q.F\n"},
 	{"edge/import-trailing-slash", "package p\n\nimport \"net/\"\n\nfunc f() { net.Dial() }\n"},
 	{"edge/split-selector", "package p\n\nimport \"fmt\"\n\nfunc f() {\n\tfmt.\n\t\tPrintln(fmt.\n\t\t\tSprint(1))\n\tvar x fmt.\n\t\tStringer\n\t_ = x\n}\n"},
+	{"edge/import-last-element-vendor", "package p\n\nimport (\n\t\"example.com/tools/vendor\"\n\t\"vendor\"\n\tv2 \"a.b/vendor/c.d/vendor\"\n)\n\nfunc f() {\n\tvendor.Run(v2.X)\n}\n"},
+	{"edge/line-directive-big", "package p\n\n//line gram.y:1000\nfunc f() {\n\n\tx := 1\n\t_ = x\n}\n"},
+	{"edge/line-directive-top", "//line expr.y:80\npackage p\n\nimport \"fmt\"\n\n//line yacctab:1\nvar _ = fmt.Sprint\n\n//line expr.y:4000\n\nfunc g() {}\n"},
+	{"edge/line-directive-inline", "package p\n\nfunc f() {\n\t/*line f.go:500:1*/ x := 1\n\n\t_ = x /*line :30*/\n}\n"},
+	{"edge/line-directive-small", "package p\n\n\n\n\n\n//line a.go:2\nvar x = `\n\n`\n\n/* c\n\n*/\nvar y = 1\n"},
 	{"edge/select-switch", "package p\n\nfunc f(c chan int) {\n\tselect {\n\t// a\n\tcase <-c:\n\t\t// b\n\tdefault:\n\t}\n\tswitch x := 1; {\n\tcase x > 0:\n\t\tfallthrough\n\tdefault:\n\t\t// c\n\t}\n}\n"},
 }
 
